@@ -114,6 +114,12 @@ def make_op(op, private_docs):
         return g
     if kind == 'purge':
         return lambda: ('purged', sv.purge())
+    if kind == 'select-ns':
+        # the same selector text under the caller's own prefix map (threads use different maps)
+        import bs4 as _bs4
+        xml = _bs4.BeautifulSoup('<r xmlns:a="urn:one" xmlns:b="urn:two"><a:item id="1"/><b:item id="2"/><a:item id="3"/><item id="4"/></r>', 'xml')
+        nsmap = dict(op['map'])
+        return lambda: ('select-ns', [e.get('id') for e in sv.select(p, xml, namespaces=nsmap)])
     if kind == 'select-fresh':
         # an attribute name never seen in this process: a guaranteed miss in every name/pattern memo.  The answer does
         # not depend on the name (no element carries it), so it is comparable between runs.
@@ -205,6 +211,21 @@ def run_case(case, opcode=False):
                 fails.append((b, f'thread {tid} op {op["op"]} {(op.get("p") or "")[:60]!r} {what}; alone it gives {exp[0]} '
                                  f'{exp[1] if exp[0] == "raise" else ""}; threads {[[(o["op"], (o.get("p") or "")[:60]) for o in t] for t in case["threads"]]} '
                                  f'schedule {sc}'))
+    if case.get('again_alone'):
+        # every operation once more, sequentially and *without* purging: what the concurrent run left behind must not
+        # change any later answer
+        for tid, ops in enumerate(case['threads']):
+            for kk, o in enumerate(ops):
+                try:
+                    with warnings.catch_warnings():
+                        warnings.simplefilter('ignore')
+                        later = ('ok', make_op(o, private)())
+                except Exception as e:  # noqa: BLE001
+                    later = ('raise', type(e).__name__)
+                exp = expected[tid][kk]
+                if later[0] != exp[0] or later[1] != exp[1]:
+                    fails.append(('later-call-alone-differs', f'after the threads finished, {o["op"]} {(o.get("p") or "")[:40]!r} {o.get("map")} alone gives '
+                                                              f'{later}, before the run it gave {exp}; schedule {sc}'))
     # nothing wrong left behind in the cache
     pats = sorted({o['p'] for ops in case['threads'] for o in ops if o.get('p') and '{fresh}' not in o['p']})
     def outcome(p):
@@ -321,6 +342,32 @@ def run_single_preemptions(col, ctx, pool, opcode):
                 if st['switches'] >= 1:
                     col.classify('single-deep-nesting')
                     col.nontrivial_case(['single-deep', pa[:6], point], None)
+                for bkt, d in fails[:2]:
+                    col.fail(bkt, case, d)
+            if not complete:
+                break
+    if complete:
+        # the same selector text under two different caller maps, all single pre-emptions; afterwards each call is made
+        # again alone (nothing about one caller's map may stay behind for the other)
+        ns_ops = [{'op': 'select-ns', 'p': 'ns|item', 'map': {'ns': 'urn:one'}}, {'op': 'select-ns', 'p': 'ns|item', 'map': {'ns': 'urn:two'}},
+                  {'op': 'select-ns', 'p': 'ns|item, |item', 'map': {'ns': 'urn:two', 'x': 'urn:one'}}]
+        for opa, opb in ((ns_ops[0], ns_ops[1]), (ns_ops[1], ns_ops[0]), (ns_ops[2], ns_ops[0])):
+            npts, _res = sched.count_yield_points(make_op(dict(opa, tid=0), [None]))
+            for point in range(1, npts + 2):
+                idx += 1
+                if idx % nsh != k:
+                    continue
+                if time.time() > ctx['t_end']:
+                    col.extra['budget_exhausted'] = 1
+                    complete = False
+                    break
+                case = {'threads': [[dict(opa)], [dict(opb)]], 'schedule': {'kind': 'single', 'point': point}, 'opcode': False,
+                        'again_alone': True}
+                fails, st = run_case(case, False)
+                col.count()
+                if st['switches'] >= 1:
+                    col.classify('single-two-caller-maps')
+                    col.nontrivial_case(['single-ns', json.dumps(opa['map'], sort_keys=True), json.dumps(opb['map'], sort_keys=True), point], None)
                 for bkt, d in fails[:2]:
                     col.fail(bkt, case, d)
             if not complete:
